@@ -214,8 +214,10 @@ func VHRecvQueued() {
 			if n < 0 {
 				n = 0
 			}
-			buf := make([]int, n)
+			backing := make([]int, n+2) // spare capacity behind the buffer must stay untouched
+			buf := backing[:n]
 			k := RecvQueuedFull(ch, buf)
+			vAssert(backing[n] == 0 && backing[n+1] == 0, "RecvQueuedFull writes nothing beyond len(buf)")
 			vAssert(0 <= k && k <= n, "RecvQueuedFull returns a count within the buffer")
 			if k >= 0 && k <= n {
 				got = buf[:k]
